@@ -440,6 +440,12 @@ def folder_candidates(rng: random.Random, files) -> list[tuple[str, str]]:
 
 
 # ------------------------------------------------------------------------------------------------ building real backends
+def mixed_slashes(name: str) -> str:
+    """The separators of a stored name alternately as backslash and slash (first one a backslash)."""
+    parts = name.split('/')
+    return ''.join(seg + ('' if i == len(parts) - 1 else ('\\' if i % 2 == 0 else '/')) for i, seg in enumerate(parts))
+
+
 class Built:
     def __init__(self, root: str, files, which=BACKENDS, vpk_limit=1024, vpk_arch=0, mod=None) -> None:
         if mod is None:
@@ -452,6 +458,9 @@ class Built:
         self.fs: dict = {}
         if 'virtual' in which:
             self.fs['virtual'] = VirtualFileSystem(dict(files))
+            # round 6: the same set keyed the way a Windows tool spells names (all backslashes / alternating separators)
+            self.fs['virtualbs'] = VirtualFileSystem({n.replace('/', '\\'): b for n, b in files})
+            self.fs['virtualmix'] = VirtualFileSystem({mixed_slashes(n): b for n, b in files})
         if 'zip' in which:
             zp = os.path.join(self.dir, 'a.zip')
             with zipfile.ZipFile(zp, 'w') as z:
@@ -1739,6 +1748,14 @@ def check_chain(root: str, sets, members, rng: random.Random, stats=None, seed=N
                                     f'walk_folder_repeat are {list(first.values())}', dict(rep, folder=folder)))
             got_keys = [fold(p) for p, _ in listed]
             kinds = sorted({k for k, *_ in members})
+            # round 6: the names a chain lists are in the normal form (forward slashes), whatever spelling the member stores
+            try:
+                bs_names = [fl.path for fl in ch.walk_folder_repeat(folder) if '\\' in fl.path] + [p for p, _ in listed if '\\' in p]
+            except Exception:      # noqa: BLE001 - reported above
+                bs_names = []
+            if bs_names:
+                out.append(('chain-walk-name-has-backslash', f'chain.walk_folder / walk_folder_repeat({folder!r}) listed {sorted(set(bs_names))}: '
+                            f'names with backslashes (walk_folder de-duplicates on the casefolded name only)', dict(rep, folder=folder)))
             if any(p.startswith('../') or '/../' in p for p, _ in listed):
                 out.append((f'chain-walk-name-not-relative-to-prefix', f'chain.walk_folder({folder!r}) listed {[p for p, _ in listed]}',
                             dict(rep, folder=folder, expected_folded=sorted(exp))))
@@ -1844,6 +1861,149 @@ def gen_chain(rng: random.Random):
         k, j, p, _ = rng.choice(members)
         members.append((k, j, p, True))
     return sets, members
+
+
+def gen_chain_backslash(rng: random.Random):
+    """Round 6: a chain in which a member mounted at the root stores its names with backslashes (all, or mixed with slashes),
+    and the same file set is held by one more member (either side may have the priority)."""
+    g = gen_chain(rng)
+    if g is None:
+        return None
+    sets, members = g
+    members = [((rng.choice(['virtualbs', 'virtualmix']) if k == 'virtual' else k), j, p, pr) for k, j, p, pr in members if k != 'raw'][:3]
+    j = rng.randrange(len(sets))
+    extra = [(rng.choice(['virtualbs', 'virtualmix']), j, '', rng.random() < 0.3),
+             (rng.choice(['zip', 'vpk', 'virtual', 'virtualbs']), j, '', rng.random() < 0.3)]
+    rng.shuffle(extra)
+    members = members[:2] + extra
+    rng.shuffle(members)
+    return sets, members
+
+
+CORPUS_CHAINS_BACKSLASH = [
+    ([[('Materials/Dev/wall.vmt', b'override wall'), ('Scripts/extra.txt', b'extra')],
+      [('materials/dev/wall.vmt', b'stock wall'), ('materials/dev/floor.vmt', b'stock floor'), ('models/props/crate.mdl', b'crate')]],
+     [('virtualbs', 0, '', False), ('zip', 1, '', False)]),
+    ([[('a/b/x.txt', b'one'), ('top.txt', b'two')]], [('zip', 0, '', False), ('virtualmix', 0, '', False)]),
+    ([[('a/b/x.txt', b'one'), ('top.txt', b'two')]], [('virtualbs', 0, 'a', False), ('virtualmix', 0, '', True), ('vpk', 0, '', False)]),
+]
+
+
+# ------------------------------------------------------------------------------------------------ oracle: directory trees other tools write
+VPK_TREE_LAYOUTS = ('block-per-file', 'folder-block-per-file', 'shuffled-runs', 'as-srctools-writes')
+
+
+def vpk_tree_blocks(files, layout: str, rng: random.Random):
+    """[(ext, [(folder, [(stem, data)])])]: the directory tree of a VPK, which the format leaves free to list an extension in
+    several blocks and a folder several times under one extension (srctools' own writer never does; other tools do)."""
+    from srctools.vpk import _get_file_parts
+    parts = [(_get_file_parts(n), b) for n, b in files]      # (folder, stem, ext)
+    order = list(parts)
+    rng.shuffle(order)
+    if layout == 'as-srctools-writes':
+        order.sort(key=lambda x: (x[0][2], x[0][0], x[0][1]))
+    elif layout == 'folder-block-per-file':
+        exts = list(dict.fromkeys(x[0][2] for x in order))
+        order.sort(key=lambda x: exts.index(x[0][2]))
+    blocks: list = []
+    for (folder, stem, ext), b in order:
+        new_ext = not blocks or blocks[-1][0] != ext or layout == 'block-per-file'
+        if new_ext:
+            blocks.append((ext, []))
+        fblocks = blocks[-1][1]
+        if not fblocks or fblocks[-1][0] != folder or layout in ('block-per-file', 'folder-block-per-file'):
+            fblocks.append((folder, []))
+        fblocks[-1][1].append((stem, b))
+    return blocks
+
+
+def vpk_tree_repeats(blocks) -> tuple[int, int]:
+    """(extensions listed in more than one block, folders listed more than once under one extension)."""
+    exts = [e for e, _ in blocks]
+    per_ext: dict = {}
+    for e, fb in blocks:
+        per_ext.setdefault(e, []).extend(f for f, _ in fb)
+    return (len(exts) - len(set(exts)), sum(len(v) - len(set(v)) for v in per_ext.values()))
+
+
+def encode_vpk_tree(blocks) -> bytes:
+    """A version-1 directory file, every file's bytes as preload data in the directory (hand-encoded, not by VPK.write_dirfile)."""
+    import struct
+    import zlib
+
+    def nul(x: str) -> bytes:
+        return (x or ' ').encode('ascii') + b'\0'
+    tree = bytearray()
+    for ext, fblocks in blocks:
+        tree += nul(ext)
+        for folder, entries in fblocks:
+            tree += nul(folder)
+            for stem, b in entries:
+                tree += nul(stem) + struct.pack('<IHHIIH', zlib.crc32(b), len(b), 0x7fff, 0, 0, 0xffff) + b
+            tree += b'\0'
+        tree += b'\0'
+    tree += b'\0'
+    return struct.pack('<III', 0x55AA1234, 1, len(tree)) + bytes(tree)
+
+
+def check_vpk_trees(root: str, files, seed: int, stats=None, hist=None) -> list[tuple[str, str, dict]]:
+    """VPKFileSystem over hand-encoded directory trees holding `files` (no case duplicates) answers like the in-memory and zip
+    backends holding the same set, in every layout of the tree."""
+    from srctools.filesys import VPKFileSystem
+    out: list[tuple[str, str, dict]] = []
+    rng = random.Random(seed)
+    sm = spec_map(files)
+    fj = [(a, b.decode()) for a, b in files]
+    bt = Built(root, files, ['virtual', 'zip'])
+    try:
+        for layout in VPK_TREE_LAYOUTS:
+            blocks = vpk_tree_blocks(files, layout, rng)
+            rep_e, rep_f = vpk_tree_repeats(blocks)
+            cls = ('repeated-ext-and-folder-blocks' if rep_e and rep_f else 'repeated-ext-blocks' if rep_e else
+                   'repeated-folder-blocks' if rep_f else 'no-repeated-blocks')
+            if hist is not None:
+                hist('vpk_tree_layout_class', cls)
+            rep = {'op': 'vpk-tree', 'files': fj, 'seed': seed, 'layout': layout,
+                   'tree(ext,[(folder,[name])])': [(e, [(f, [st for st, _ in en]) for f, en in fb]) for e, fb in blocks]}
+            vp = os.path.join(bt.dir, f'h{VPK_TREE_LAYOUTS.index(layout)}_dir.vpk')
+            with open(vp, 'wb') as fh:
+                fh.write(encode_vpk_tree(blocks))
+            try:
+                fs = VPKFileSystem(vp)
+                n_held = len(fs.vpk)
+            except Exception as e:      # noqa: BLE001
+                out.append((f'lookup-vpk-foreign-tree-{cls}-not-readable', f'vpk over a hand-encoded tree ({layout}): {type(e).__name__}: {e}', rep))
+                continue
+            if n_held != len(files):
+                out.append((f'lookup-vpk-foreign-tree-{cls}-file-count', f'vpk over a hand-encoded tree ({layout}) of {len(files)} files holds {n_held}: '
+                            f'{sorted(f.filename for f in fs.vpk)}', rep))
+            for nm, b in files:
+                for q in [nm] + rng.sample(spellings(rng, nm), 1):
+                    got = {k: impl_lookup(x, q) for k, x in (('vpk', fs), ('virtual', bt.fs['virtual']), ('zip', bt.fs['zip']))}
+                    if stats is not None:
+                        stats('vpk_tree_observations', 3)
+                    if got['vpk'] != (True, b, b) or got['vpk'] != got['virtual'] or got['vpk'] != got['zip']:
+                        out.append((f'lookup-vpk-foreign-tree-{cls}', f'hand-encoded tree ({layout}), stored {nm!r} queried as {q!r}: (exists, fs[q], open_bin) = '
+                                    + ', '.join(f'{k}={v!r}' for k, v in got.items()), dict(rep, query=q)))
+            for folder, fcls in [('', 'root')] + [x for x in folder_candidates(rng, files) if x[1] in ('exact', 'case-variant', 'backslash')][:4]:
+                exp = sorted(k for k in sm if spec_inside(folder, k))
+                got = {k: impl_walk(x, folder) for k, x in (('vpk', fs), ('virtual', bt.fs['virtual']), ('zip', bt.fs['zip']))}
+                if stats is not None:
+                    stats('vpk_tree_observations', 3)
+                norm = {k: (v if isinstance(v, str) else sorted(fold(p) for p in v)) for k, v in got.items()}
+                if norm['vpk'] != exp or norm['virtual'] != exp or norm['zip'] != exp:
+                    out.append((f'walk-vpk-foreign-tree-{cls}', f'hand-encoded tree ({layout}): walk_folder({folder!r}) listed '
+                                + ', '.join(f'{k}={v!r}' for k, v in norm.items()) + f', expected {exp}', dict(rep, folder=folder)))
+    finally:
+        bt.close()
+    return out
+
+
+CORPUS_TREE_SETS = [
+    [('materials/dev/wall.vmt', b'w'), ('models/chair.mdl', b'c'), ('materials/dev/floor.vmt', b'f'), ('models/crate.mdl', b'k'),
+     ('materials/other/glass.vmt', b'g'), ('models/props/barrel.mdl', b'b'), ('readme.txt', b'r')],
+    [('a/x.txt', b'1'), ('a/y.txt', b'2'), ('b/x.txt', b'3'), ('a/z.vmt', b'4'), ('noext', b'5'), ('a/noext2', b'6'), ('.dot', b'7')],
+]
 
 
 CORPUS_CHAINS = [
@@ -2013,6 +2173,39 @@ def search(ck: Ck, root: str) -> None:
                 break
             note(guarded('chain', lambda: check_chain(root, sets, list(perm), None, stats, seed, ck.hist),
                          {'op': 'chain', 'sets': [[(a, b.decode()) for a, b in s] for s in sets], 'members': [list(m) for m in perm], 'seed': seed}))
+    # round 6: chains whose root-mounted members store backslash-spelled names; VPKs with directory trees other tools write
+    for i in range(ck.budget(30, 200)):
+        g = CORPUS_CHAINS_BACKSLASH[i] if i < len(CORPUS_CHAINS_BACKSLASH) else gen_chain_backslash(ck.rng)
+        if g is None:
+            continue
+        sets, members = g
+        ck.count('chains')
+        ck.count('chains_with_backslash_stored_names')
+        ck.hist('chain_member_kinds', '+'.join(sorted({x[0] for x in members})))
+        ck.seen(('chain', tuple(members), tuple(tuple(nm for nm, _ in s) for s in sets)))
+        seed = ck.rng.randrange(1 << 30)
+        if hangs[0] >= MAX_HANGS:
+            break
+        note(guarded('chain', lambda: check_chain(root, sets, list(members), None, stats, seed, ck.hist),
+                     {'op': 'chain', 'sets': [[(a, b.decode()) for a, b in s] for s in sets], 'members': [list(m) for m in members], 'seed': seed}))
+    for i in range(ck.budget(25, 150)):
+        files = CORPUS_TREE_SETS[i] if i < len(CORPUS_TREE_SETS) else gen_files(ck.rng, allow_dups=False)
+        if not files:
+            continue
+        ck.count('vpk_tree_file_sets')
+        seed = ck.rng.randrange(1 << 30)
+        if hangs[0] >= MAX_HANGS:
+            break
+        v = guarded('vpk-tree', lambda: check_vpk_trees(root, files, seed, stats, ck.hist), {'op': 'vpk-tree', 'files': [(a, b.decode()) for a, b in files], 'seed': seed})
+        for key in {k for k, _, _ in v}:
+            if unshrinkable(key) or (key in found and len(found[key][1].get('files', [])) <= 3):
+                note([x for x in v if x[0] == key])
+                continue
+            small = shrink_files(files, lambda fs, key=key: any(k == key for k, _, _ in guarded('vpk-tree', lambda: check_vpk_trees(root, fs, seed), {})))
+            v2 = [x for x in guarded('vpk-tree', lambda: check_vpk_trees(root, small, seed), {}) if x[0] == key]
+            note(v2 or [x for x in v if x[0] == key])
+    ck.sample({'vpk_directory_tree_layouts': list(VPK_TREE_LAYOUTS), 'backslash_member_kinds': ['virtualbs', 'virtualmix'],
+               'example_tree': [(e, [(f, [st for st, _ in en]) for f, en in fb]) for e, fb in vpk_tree_blocks(CORPUS_TREE_SETS[0], 'shuffled-runs', random.Random(1))]})
     ck.sample({'walk_history': {'ways_of_giving_a_walk_up': list(ABANDON_MODES), 'example': ['vpk.walk_folder(\'materials\') given up after 1 item (take1)',
                                 'then the complete vpk.walk_folder(\'MATERIALS\\\\\') and, for the root, iter(vpk)']},
                'chain_systems_edits': ['pop-first', 'reverse', 'rotate', 'pop-last', 'swap-first-two', 'insert-copy-of-last-first']})
@@ -2021,6 +2214,95 @@ def search(ck: Ck, root: str) -> None:
     for key, (what, rep) in sorted(found.items()):
         ck.violation(key, what, rep)
     ck.extra['search_violation_keys'] = sorted(found)
+
+
+# ------------------------------------------------------------------------------------------------ round 6: two source shapes
+def _method_ast(mod, cls: str, meth: str):
+    import ast
+    import inspect
+    tree = ast.parse(inspect.getsource(mod))
+    for c in tree.body:
+        if isinstance(c, ast.ClassDef) and c.name == cls:
+            for f in c.body:
+                if isinstance(f, (ast.FunctionDef, ast.AsyncFunctionDef)) and f.name == meth:
+                    return f
+    return None
+
+
+def vpk_reader_tree_level_shape(fn) -> tuple[bool, str]:
+    """VPK.load_dirfile, inside the loops that read the tree: every `<dict>[key] = {}` (a level of _fileinfo created) stands in
+    an `except KeyError` handler of a try that reads the same `<dict>[key]`, or under `if key not in <dict>`: a level is
+    created only when it is missing (merge-or-create), so a repeated extension / folder block extends the earlier one."""
+    import ast
+    if fn is None:
+        return False, 'VPK.load_dirfile not found'
+    creates: list[tuple[str, bool]] = []
+
+    def sub_key(t) -> str:
+        return ast.dump(ast.Subscript(value=t.value, slice=t.slice, ctx=ast.Load()))
+
+    def visit(node, guards: frozenset, in_loop: bool) -> None:
+        if isinstance(node, ast.Assign) and isinstance(node.value, (ast.Dict, ast.Call)) and in_loop:
+            empty = (isinstance(node.value, ast.Dict) and not node.value.keys) or \
+                    (isinstance(node.value, ast.Call) and isinstance(node.value.func, ast.Name) and node.value.func.id in ('dict', 'OrderedDict') and not node.value.args)
+            if empty:
+                for t in node.targets:
+                    if isinstance(t, ast.Subscript):
+                        creates.append((ast.unparse(t), sub_key(t) in guards))
+        if isinstance(node, ast.Try):
+            reads = {ast.dump(ast.Subscript(value=x.value, slice=x.slice, ctx=ast.Load())) for b in node.body for x in ast.walk(b)
+                     if isinstance(x, ast.Subscript) and isinstance(x.ctx, ast.Load)}
+            for b in node.body + node.orelse + node.finalbody:
+                visit(b, guards, in_loop)
+            for h in node.handlers:
+                names = {n.id for n in ast.walk(h.type) if isinstance(n, ast.Name)} if h.type is not None else set()
+                g = guards | reads if ('KeyError' in names or 'LookupError' in names) else guards
+                for b in h.body:
+                    visit(b, frozenset(g), in_loop)
+            return
+        if isinstance(node, ast.If):
+            t = node.test
+            g = guards
+            if isinstance(t, ast.Compare) and len(t.ops) == 1 and isinstance(t.ops[0], ast.NotIn):
+                g = guards | {ast.dump(ast.Subscript(value=t.comparators[0], slice=t.left, ctx=ast.Load()))}
+            for b in node.body:
+                visit(b, frozenset(g), in_loop)
+            for b in node.orelse:
+                visit(b, guards, in_loop)
+            return
+        loop = in_loop or isinstance(node, (ast.For, ast.While))
+        for ch in ast.iter_child_nodes(node):
+            visit(ch, guards, loop)
+
+    visit(fn, frozenset(), False)
+    bad = [c for c, ok in creates if not ok]
+    return (not bad, f'levels created: {[c for c, _ in creates]}; created without a check that the key is missing: {bad}')
+
+
+def chain_walk_repeat_name_shape(fn) -> tuple[bool, str]:
+    """FileSystemChain.walk_folder_repeat: on every branch, what is yielded is File(self, <name>, ...) with <name> computed from an
+    expression that contains .replace('\\', '/') (the listed names are in the forward-slash normal form walk_folder de-duplicates on)."""
+    import ast
+    if fn is None:
+        return False, 'FileSystemChain.walk_folder_repeat not found'
+
+    def normalises(e, depth=0) -> bool:
+        for x in ast.walk(e):
+            if (isinstance(x, ast.Call) and isinstance(x.func, ast.Attribute) and x.func.attr == 'replace' and len(x.args) == 2
+                    and all(isinstance(a, ast.Constant) for a in x.args) and x.args[0].value == '\\' and x.args[1].value == '/'):
+                return True
+        if isinstance(e, ast.Name) and depth < 3:
+            defs = [a.value for a in ast.walk(fn) if isinstance(a, ast.Assign) and any(isinstance(t, ast.Name) and t.id == e.id for t in a.targets)]
+            return bool(defs) and all(normalises(d, depth + 1) for d in defs)
+        return False
+    ys = [x for x in ast.walk(fn) if isinstance(x, (ast.Yield, ast.YieldFrom))]
+    bad = []
+    for y in ys:
+        v = y.value
+        if isinstance(y, ast.Yield) and isinstance(v, ast.Call) and isinstance(v.func, ast.Name) and v.func.id == 'File' and len(v.args) >= 2 and normalises(v.args[1]):
+            continue
+        bad.append(ast.unparse(y))
+    return (bool(ys) and not bad, f'{len(ys)} yields; yields whose name is not passed through replace(backslash, slash): {bad}')
 
 
 # ------------------------------------------------------------------------------------------------ main
@@ -2039,6 +2321,11 @@ def run(ck: Ck) -> None:
                'placement (preload only, directory tail, numbered archive, single file, no limit) with file sizes 0-100 and around 1024 / 65535; '
                'chains also over archives mounted under one label (distinct objects that compare equal), a mounted member re-added with priority, and '
                'lookups / walks between the add_sys calls. '
+               'Round 6: chains in which a member mounted at the root is an in-memory file system whose stored names are spelt with backslashes '
+               '(all, or alternating with slashes) next to another member holding the same set (3 fixed + 30 random chains); VPK directory files '
+               'encoded by hand (not by VPK.write_dirfile) in 4 layouts of the extension/folder/file tree - one extension block per file, one folder '
+               'block per file, shuffled runs (repeated extension and folder blocks interleaved), srctools\' own sorted layout - over 2 fixed + 25 '
+               'random file sets, VPKFileSystem compared with the in-memory and zip backends holding the same set on lookups and walks. '
                'Histories (round 5): on every backend of every file set, for the root and up to three folders, a walk (or iter) is given up in one of '
                '9 ways (0, 1, 2 or all-but-one items taken, any(), exception in the loop body, throw(), close(), a second walk plus walks of other '
                'folders while the first is suspended), then the folder is walked completely under another spelling and the object is iterated; every '
@@ -2208,6 +2495,16 @@ def run(ck: Ck) -> None:
         ck.obligation('instance-theorem:histories_irrelevant', rc == 0,
                       'c19_property_over_histories (second conjunct), c19_backend_walk_history and c19_chain_lookup_history at the generated census of stores '
                       '(chain_census, virtual_census, raw_census, zip_census, vpk_census, helpers_census, vpk_reader_census)' + ('' if rc == 0 else ': ' + out[-400:]))
+    # round 6: two shapes read from the source directly (also when the shape translator has failed closed)
+    try:
+        import srctools.filesys as _fsmod
+        import srctools.vpk as _vpkmod
+        ok, det = vpk_reader_tree_level_shape(_method_ast(_vpkmod, 'VPK', 'load_dirfile'))
+        ck.obligation('instance:vpk_reader_creates_tree_level_only_when_missing', ok, 'VPK.load_dirfile merges repeated extension / folder blocks: ' + det)
+        ok, det = chain_walk_repeat_name_shape(_method_ast(_fsmod, 'FileSystemChain', 'walk_folder_repeat'))
+        ck.obligation('instance:chain_walk_repeat_lists_forward_slash_names', ok, 'every branch of FileSystemChain.walk_folder_repeat: ' + det)
+    except Exception as e:      # noqa: BLE001 - fail closed
+        ck.obligation('instance:round6_source_shapes_readable', False, f'{type(e).__name__}: {e}')
     keys = {v['key'] for v in ck.violations}
 
     def any_key(*subs):
@@ -2290,6 +2587,10 @@ def run(ck: Ck) -> None:
         ck.explain('instance-theorem:chain_exists_and_vpk_bytes')
     if any_key('chain-iter-', 'chain-contains-', 'chain-get-'):
         ck.explain('instance:filesystem_getitem_contains_iter_delegate')
+    if any_key('vpk-foreign-tree'):
+        ck.explain('instance:vpk_reader_creates_tree_level_only_when_missing')
+    if any_key('chain-walk-name-has-backslash', 'chain-walk-lists-a-name-twice'):
+        ck.explain('instance:chain_walk_repeat_lists_forward_slash_names')
     if any_key('chain-walk-name-not-relative-to-prefix'):
         ck.explain('instance:chain_walk_names_relative_to_prefix')
     if any_key('chain-'):
@@ -2358,6 +2659,10 @@ def replay(data: dict) -> int:
         elif r.get('op') == 'content':
             sized = [tuple(x) for x in r['files(name,size)']]
             for k, what, _ in guarded('content', lambda: check_content(root, sized, r['placements']), r):
+                print('FOUND', k, '-', what)
+        elif r.get('op') == 'vpk-tree':
+            files = [(a, b.encode()) for a, b in r['files']]
+            for k, what, _ in guarded('vpk-tree', lambda: check_vpk_trees(root, files, r.get('seed', 0)), r):
                 print('FOUND', k, '-', what)
         elif r.get('op') == 'chain':
             sets = [[(a, b.encode()) for a, b in s] for s in r['sets']]
